@@ -151,6 +151,8 @@ def subject(case):
         X3[3] = X3[2]
     X = panelpool.to_nested(X3) if case["container"] != "numpy3d" else X3
     y = np.linspace(0, 1, 8) if kind == "tsfr" else panelpool.labels_for(8, "str")
+    if case.get("flip_labels"):
+        y = y[::-1].copy()
     Xa3 = (X3 + panelpool.panel_values(case["seed"] + 11, 8, c, t)) / 2.0
     data = {"X": X, "y": y, "Xa": panelpool.to_nested(Xa3) if case["container"] != "numpy3d" else Xa3}
     s2 = dict(spec, random_state=rs, n_jobs=case.get("n_jobs", 1))
@@ -230,6 +232,16 @@ def oracle_reproducible(case, ctx):
             ctx.mark_rejected()
             return []
         b = S["make"]()
+        if case.get("order") and case["order"][0] % 2 == 0:
+            # the twin was fitted before on OTHER data: equal parameters fitted (last) on equal
+            # data still answer equally
+            other = dict(case, seed=case["seed"] + 7, values=[v * 0.5 + 3.0 for v in case["values"]][::-1], start=case["start"] + 2)
+            if case["family"] == "panel_estimator" and case["order"][-1] % 2 == 0:
+                # the same panel with the labels the other way round: whatever survives from the
+                # earlier fit was perfectly trained for the opposite answer
+                other = dict(case, flip_labels=True)
+            sut(subject(other)["fit"], b)
+            ctx.label("twin_fitted_before_on_other_data")
         sut(S["fit"], b)
         discs = []
         outs_a = {n: sut(f, a) for n, f in sorted(S["calls"].items())}
@@ -362,8 +374,21 @@ def enum_purity_all_kinds(tier):
             yield dict(base, family="panel_estimator", spec={"kind": k, "n_columns": 1}, as_frame=True, container=cont)
 
 
+def enum_reproducible_all_kinds(tier):
+    """Every runnable estimator kind: an equal-parameter twin that was fitted before on other
+    data, a pickled copy, on three fixed data sets."""
+    for k in range(4):
+        for c in enum_purity_all_kinds(tier):
+            # k odd: classifiers were trained before on the same panel with flipped labels (and
+            # without exact duplicates, which make some dictionary classifiers fail at apply time)
+            yield dict(c, order=[0, 1 + (k % 2)], seed=c["seed"] + 101 * k, rs=c["rs"] + k, values=c["values"][k:] + c["values"][:k],
+                       as_frame=c["as_frame"] and k % 2 == 0)
+
+
 def subchecks():
     return [
+        SubCheck("reproducible_every_kind", oracle_reproducible, enumerate_cases=enum_reproducible_all_kinds, shards_quick=16, shards_thorough=16,
+                 exhaustive=True),
         SubCheck("purity_every_kind", oracle_purity, enumerate_cases=enum_purity_all_kinds, shards_quick=16, shards_thorough=16, exhaustive=True),
         SubCheck("purity_and_repeatability", oracle_purity, cases(), quick=700, thorough=10000, shards_quick=10, shards_thorough=16),
         SubCheck("reproducibility_pickle_n_jobs", oracle_reproducible, cases(reproducible=True), quick=400, thorough=6000, shards_quick=12, shards_thorough=16),
